@@ -39,6 +39,14 @@ def gen_batch(rng, nmethods=12, chain=False):
             ok = False          # more than 15 slots of a class: rejected by the Counter (checked by C02 at L0)
         if ok:
             methods.append(("m%d" % len(methods), ps))
+    # an unrelated interface declared first whose methods have the same names and other small
+    # parameters: what is generated for a method depends on its own interface only
+    dec = []
+    for i, (n, ps) in enumerate(methods):
+        dps = [("in", ["uint64", "uint16", "uint8", "uint32"][(i + j) % 4], None, "d%d" % j) for j in range(2 + i % 3)]
+        dps += [("out", ["uint8", "uint64", "uint16"][(i + j) % 3], None, "e%d" % j) for j in range(i % 3)]
+        dec.append(("method", n, dps, False, None))
+    decls.append(("iface", "IDecoy", None, dec))
     if chain:
         # "own or inherited": the methods are spread over a chain IL0 <- IL1 <- IL2 (the flattened
         # interface lists the root's methods first, which is the order of `methods`)
